@@ -638,6 +638,20 @@ def _exempt_by_role(f, qual, fn, it, how, node=None):
     return None
 
 
+def _self_is_network(pkg, f, qual, depth=0) -> bool:
+    """is `self` inside this function a Network?  A method of Network; a private function of network.py that only methods of
+    Network (or such functions in turn) use -- a piece of theirs, handed their self.  In a module-level function of any other
+    module a parameter called self is the object of that module's classes (a Reaction's `reactants` is a list)."""
+    if qual.startswith("Network."):
+        return True
+    if "." in qual:
+        return not qual[:1].isupper()
+    if f != NF or depth > 3:
+        return False
+    users = _users_of(pkg, f, qual)
+    return bool(users) and all(_self_is_network(pkg, f, u, depth + 1) for u in users)
+
+
 def _r1(ctx, pkg):
     # the rule must fire on the positive fixture
     fx = ast.parse(FIXTURE).body[0]
@@ -653,7 +667,7 @@ def _r1(ctx, pkg):
         ctx.saw(f)
         for qual, fn in _functions(pkg, f):
             nfun += 1
-            typer = SetTyper(fn, SET_ATTRS, in_network=qual.startswith("Network.") or not qual.split(".")[0][:1].isupper())
+            typer = SetTyper(fn, SET_ATTRS, in_network=_self_is_network(pkg, f, qual))
             for node, it, how in unordered_iterations(fn, typer):
                 src = " ".join(ast.unparse(it).split())
                 key = f"{qual}:{how}:{src[:60]}"
